@@ -65,7 +65,7 @@ def gen_configs(rnd, n):
         layers.append(400)
         zmax = rnd.choice([30, 50, 100, 130, 150, 170, 180, 200, 230, 300])
         reach = sum(d if d >= 25 else (d + 10 if d + 10 >= 25 else (d + 20 if d + 20 >= 25 else d + 30)) for d in dz)
-        if reach < zmax + 10:
+        if reach <= zmax + 10:        # strictly deeper than Zmax + 10 cm: at the tie the code's floating-point loop test may demand one more step
             continue
         c = {"dz": dz, "layers": layers, "zmax": zmax}
         key = json.dumps(c, sort_keys=True)
@@ -99,7 +99,7 @@ def doc_scenarios(tier, seed):
             continue
         om = rnd.uniform(0.2, 6)
         scs.append(S(rnd.choice(["Wheat", "Maize", "Tomato"]), seed=1,
-                     soil_spec={"type": "custom", "kw": {"dz": rnd.choice([[0.1] * 12, [0.05] * 6 + [0.15] * 6, [0.2] * 7])},
+                     soil_spec={"type": "custom", "kw": {"dz": rnd.choice([[0.1] * 12, [0.05] * 6 + [0.15] * 6, [0.2] * 9])},
                                 "texture_layers": [[rnd.choice([0.3, 0.5]), sand, clay, om, 100], [3.0, max(3, sand - 10), min(58, clay + 8), om / 2, 100]]},
                      iwc=rnd.choice(L.iwc_variants(2))))
     return scs
